@@ -167,7 +167,7 @@ def hypothesis_part(part, strategy, case_fn, examples, seed, nshards=None, shrin
             @given(strategy)
             def test(case):
                 v, info = case_fn(case)
-                if rnd == 0 and not found:
+                if not found:
                     col.count(case, info, hash_of(case) if hash_of else None)
                 if v is not None:
                     if v.bucket() in excluded:
@@ -296,7 +296,7 @@ def finish(check_id, tier, seed, level, col, rule, assumptions, t0, exhaustive=N
         code = 1
     print("%s %s seed=%d: %d evaluations, %d distinct non-trivial, %d violation(s), %.1fs"
           % (check_id, tier, seed, col.evaluations, len(col.hashes), len(col.violations), time.time() - t0))
-    if len(col.hashes) < 2 or col.evaluations < 1:
+    if (len(col.hashes) < 2 or col.evaluations < 1) and code == 0:
         raise env.HarnessError("%s: generator produced %d non-trivial cases" % (check_id, len(col.hashes)))
     sys.stdout.flush()
     return code
